@@ -91,20 +91,34 @@ def erased_position(ast, ident):
         if t == "var":
             return False
         if t == "let":
+            # liveness: a binding is used when the body names it, or (let*) a later *used* binding does
+            live = set(names_in(e[3]))
+            used_idx = set()
+            for i in range(len(e[2]) - 1, -1, -1):
+                if e[2][i][0] in live:
+                    used_idx.add(i)
+                    if e[1] == "seq":
+                        live |= names_in(e[2][i][1])
             ok = True
             for i, b in enumerate(e[2]):
                 if occurs(b[1]):
-                    later = [x[1] for x in e[2][i + 1:]] if e[1] == "seq" else []
-                    used = b[0] in names_in(e[3]) or any(b[0] in names_in(x) for x in later)
-                    ok = ok and (not used or covered(b[1]))
+                    ok = ok and (i not in used_idx or covered(b[1]))
             return ok and covered(e[3])
         if t == "assign":
+            live = set(names_in(e[2]))
+            used_idx = set()
+            changed_ = True
+            while changed_:
+                changed_ = False
+                for i, b in enumerate(e[1]):
+                    if i not in used_idx and pat_names(b[0]) & live:
+                        used_idx.add(i)
+                        live |= names_in(b[1])
+                        changed_ = True
             ok = True
             for i, b in enumerate(e[1]):
                 if occurs(b[1]):
-                    others = [x[1] for j, x in enumerate(e[1]) if j != i]
-                    used = any(n in names_in(e[2]) or any(n in names_in(x) for x in others) for n in pat_names(b[0]))
-                    ok = ok and (not used or covered(b[1]))
+                    ok = ok and (i not in used_idx or covered(b[1]))
             return ok and covered(e[2])
         if t == "call":
             if e[1] in tainted:
